@@ -523,8 +523,17 @@ def o11(tier):
     return memobs.save_message_upsert(tier, 'O11', 'O11')
 
 
+def o12(tier):
+    """the snapshot API behaves alike on both backends: re-taking a snapshot under an existing name REPLACES it (memory replaces the map entry)"""
+    from props import C09
+    r = C09.sqlite_snapshot_ops(tier)
+    r.oid = 'O12'
+    r.title = 'SQLite (shared with C09-O3): re-taking a snapshot under an existing name replaces it (delete-first inside the transaction), like the memory backend; snapshot maintenance touches only the snapshot table'
+    return r
+
+
 def run(tier, seed, only=None):
-    obs = [('O1', o1), ('O2', o2), ('O3', o3), ('O4', o4), ('O5', o5), ('O6', o6), ('O7', o7), ('O8', o8), ('O9', o9), ('O10', o10), ('O11', o11)]
+    obs = [('O1', o1), ('O2', o2), ('O3', o3), ('O4', o4), ('O5', o5), ('O6', o6), ('O7', o7), ('O8', o8), ('O9', o9), ('O10', o10), ('O11', o11), ('O12', o12)]
     out = []
     for k, f in obs:
         if only and k not in only:
